@@ -4,7 +4,7 @@ from __future__ import annotations
 import copy
 from typing import Any, Dict, List
 
-from . import from_tlc, gen_asgi, gen_h1, gen_h2, gen_ws
+from . import from_tlc, gen_asgi, gen_h1, gen_h2, gen_proto, gen_ws
 
 COMMON_ASSUMPTIONS = [
     "h11/h2/wsproto/priority libraries behave as documented (their server roles are exercised, not re-verified)",
@@ -46,6 +46,7 @@ PROPS["C10"] = {"monitor": "C10", "generators": [gen_ws.gen_c10]}
 PROPS["C11"] = {"monitor": "C11", "generators": [gen_ws.gen_c11]}
 PROPS["C12"] = {"monitor": "C12", "generators": [gen_asgi.gen_c12],
                 "design": [{"module": "Asgi", "cfg": "MC_Asgi.cfg"}]}
+PROPS["C13"] = {"monitor": "C13", "generators": [gen_proto.gen_c13]}
 PROPS["C17"] = {"monitor": "C17", "adapter": "c17",
                 "design": [{"module": "Wsgi", "cfg": "MC_Wsgi.cfg"}],
                 "technique": "TLA+ oracle (Wsgi.tla) model-checked by TLC + TLC validation of real executions of every enumerated case"}
